@@ -14,12 +14,13 @@ for k in range(n):
     rng = random.Random(seed0 * 100003 + k)
     cfg = gen.random_cfg(rng)
     w = World(cfg)
-    wk = gen.Walker(rng, rng.choice(list(gen.FLAVOURS)))
+    wk = gen.Walker(rng, rng.choice(list(gen.FLAVOURS)), stall=(k % 4 == 3))
     wk.walk(w, rng.choice([10, 25, 60]))
     w.finish()
     A = Analysis(w.trace, cfg)
     for name, fn in MON.items():
         if only and name not in only: continue
+        if A.stall_total and name in ("C04", "C15"): continue      # exact deadlines: no stalls in their plans
         try:
             v, st = fn(A)
         except Exception:
